@@ -386,7 +386,7 @@ static std::string make_replay_json(const RunResult& r, const std::string& plan_
   for (size_t i = 0; i < g_prelude.size(); i++) { snprintf(b, sizeof b, "%s\"%llu\"", i ? "," : "", (unsigned long long)g_prelude[i]); o += b; }
   o += "],\n";
   o += " \"plan\": " + plan_json + ",\n";
-  if (decs) o += " \"decisions_format\": \"[thread, op_id, point_in_op, kind(0 run,1 commit,2 spurious wake,3 clock jump,4 choose), arg, arg2]\",\n \"decisions\": " + decs_to_json(*decs) + "\n";
+  if (decs) o += " \"decisions_format\": \"[thread, op_id, point_in_op, kind(0 run,1 commit,2 spurious wake,3 clock jump,4 choose,5 early sleep return,6 waiter picked by a wake), arg, arg2]\",\n \"decisions\": " + decs_to_json(*decs) + "\n";
   else o += " \"decisions\": null\n";
   o += "}\n";
   return o;
@@ -510,6 +510,9 @@ struct Minimised {
   RunResult result;
 };
 
+static double g_min_wall_deadline = 0;
+static inline bool min_left(int budget_runs) { return g_min_runs < (uint64_t)budget_runs && wall_now() < g_min_wall_deadline; }
+
 static Minimised minimise(const Plan& orig, uint64_t seed, const RunResult& first, int budget_runs) {
   Minimised m;
   m.plan = orig;
@@ -518,6 +521,8 @@ static Minimised minimise(const Plan& orig, uint64_t seed, const RunResult& firs
   const std::string cls = first.cls, site = first.site;
   const int TRIES = 12;
   g_min_runs = 0;
+  // wall-clock cap as well: plans with a hundred threads take a second per run
+  g_min_wall_deadline = wall_now() + (O.thorough ? 240.0 : 75.0);
   // drop prelude runs that are not needed (from the front, halving chunks)
   if (!g_prelude.empty()) {
     size_t chunk = g_prelude.size();
@@ -537,10 +542,10 @@ static Minimised minimise(const Plan& orig, uint64_t seed, const RunResult& firs
     }
   }
   bool progress = true;
-  while (progress && g_min_runs < (uint64_t)budget_runs) {
+  while (progress && min_left(budget_runs)) {
     progress = false;
     // drop whole threads (from the back)
-    for (size_t t = m.plan.threads.size(); t-- > 0 && g_min_runs < (uint64_t)budget_runs;) {
+    for (size_t t = m.plan.threads.size(); t-- > 0 && min_left(budget_runs);) {
       if (m.plan.threads[t].empty()) continue;
       Plan c = m.plan;
       c.threads[t].clear();
@@ -549,7 +554,7 @@ static Minimised minimise(const Plan& orig, uint64_t seed, const RunResult& firs
     }
     // drop single ops
     for (size_t t = 0; t < m.plan.threads.size(); t++)
-      for (size_t i = m.plan.threads[t].size(); i-- > 0 && g_min_runs < (uint64_t)budget_runs;) {
+      for (size_t i = m.plan.threads[t].size(); i-- > 0 && min_left(budget_runs);) {
         Plan c = m.plan;
         c.threads[t].erase(c.threads[t].begin() + (long)i);
         uint64_t ss = m.sched_seed; RunResult r;
@@ -558,7 +563,7 @@ static Minimised minimise(const Plan& orig, uint64_t seed, const RunResult& firs
     // simplify environment: faults off, store buffer off, policy random
     static const char* simplify[][2] = {{"faults", "0"}, {"sb", "0"}, {"policy", "0"}, {"jump_den", "0"}, {"spurious_den", "0"}, {"post_pts", "0"}};
     for (auto& kv : simplify) {
-      if (g_min_runs >= (uint64_t)budget_runs) break;
+      if (!min_left(budget_runs)) break;
       auto it = m.plan.cfg.find(kv[0]);
       if (it == m.plan.cfg.end() || it->second == atoll(kv[1])) continue;
       Plan c = m.plan;
@@ -568,7 +573,7 @@ static Minimised minimise(const Plan& orig, uint64_t seed, const RunResult& firs
     }
     // shrink op arguments a (towards 1) — harnesses clamp arguments themselves
     for (size_t t = 0; t < m.plan.threads.size(); t++)
-      for (size_t i = 0; i < m.plan.threads[t].size() && g_min_runs < (uint64_t)budget_runs; i++) {
+      for (size_t i = 0; i < m.plan.threads[t].size() && min_left(budget_runs); i++) {
         if (m.plan.threads[t][i].a <= 1) continue;
         Plan c = m.plan;
         c.threads[t][i].a = c.threads[t][i].a / 2;
@@ -593,9 +598,10 @@ static Minimised minimise(const Plan& orig, uint64_t seed, const RunResult& firs
     size_t chunk = d.size() / 2;
     int sched_budget = budget_runs;
     g_min_runs = 0;
-    while (chunk >= 1 && g_min_runs < (uint64_t)sched_budget) {
+    g_min_wall_deadline = wall_now() + (O.thorough ? 120.0 : 45.0);
+    while (chunk >= 1 && min_left(sched_budget)) {
       bool any = false;
-      for (size_t start = 0; start < d.size() && g_min_runs < (uint64_t)sched_budget;) {
+      for (size_t start = 0; start < d.size() && min_left(sched_budget);) {
         MVec<Dec> c;
         for (size_t i = 0; i < d.size(); i++)
           if (i < start || i >= start + chunk) c.push_back(d[i]);
